@@ -17,6 +17,7 @@ def run(scenario, preemptions=None, choices=None, step_limit=60000,
         tick         clock tick in seconds (dyadic)
         work         {op: seconds} virtual time a device charges per request
         start        [hour, minute, second] wall clock at virtual time 0
+        late_ticks   {n: seconds} the n-th clock tick comes that much late
         clients      list of client op lists, see _client()
         scripts      {name: text}
     Returns a Run with .sched .outcome .jobs .world"""
@@ -70,7 +71,14 @@ def run(scenario, preemptions=None, choices=None, step_limit=60000,
         finally:
             scheduler.record('until-ret')
 
+    late = {int(k): v for k, v in scenario.get('late_ticks', {}).items()}
+    fired = [0]
+
     def fire(self):
+        # a late tick: the clock thread's sleep overran (a loaded host)
+        fired[0] += 1
+        if fired[0] in late:
+            scheduler.sleep(late[fired[0]])
         scheduler.record('tick')
         return originals['fire'](self)
 
@@ -84,6 +92,7 @@ def run(scenario, preemptions=None, choices=None, step_limit=60000,
     result.sched = scheduler
     result.world = world
     result.jobs = {}
+    result.stop_agents = []     # the agents agent_stop got hold of
     holder = {}
 
     class NamedJob(script_job.ScriptJob):
@@ -137,6 +146,7 @@ def run(scenario, preemptions=None, choices=None, step_limit=60000,
                         current = control.get_current()
                         scheduler.record('stop-target', None if current is None
                                          else current.name)
+                        result.stop_agents.append(current)
                         if current is not None:
                             current.request_stop()
                     elif kind == 'stop_all':
@@ -185,6 +195,11 @@ def run(scenario, preemptions=None, choices=None, step_limit=60000,
             result.outcome = scheduler.run(*[
                 client(i, ops) for i, ops in enumerate(scenario['clients'])])
             result.control = holder['control']
+            # the thread each of those agents ran its job on
+            result.stop_threads = [
+                getattr(getattr(getattr(agent, '_thread', None), '_managed',
+                                None), 'name', None)
+                for agent in result.stop_agents]
     finally:
         for name, fn in originals.items():
             setattr(Clock, name, fn)
